@@ -31,7 +31,7 @@ class State:
         if hasattr(s, 'errno_obj'): n.errno_obj = s.errno_obj
         n.objs = {k: v for k, v in s.objs.items()}   # copy-on-write at object level
         n.cow = set(n.objs.keys())
-        n.relaxed = getattr(s, 'relaxed', False); n.fake_ctype = getattr(s, 'fake_ctype', None); n.pc = list(s.pc); n.nextobj = s.nextobj; n.inputs = list(s.inputs); n.steps = s.steps; n.exc = s.exc
+        n.relaxed = getattr(s, 'relaxed', False); n.mfnames = getattr(s, 'mfnames', {}); n.exc_vt = getattr(s, 'exc_vt', None); n.exc_msg = getattr(s, 'exc_msg', None); n.iosreg = getattr(s, 'iosreg', {}); n.fake_ctype = getattr(s, 'fake_ctype', None); n.pc = list(s.pc); n.nextobj = s.nextobj; n.inputs = list(s.inputs); n.steps = s.steps; n.exc = s.exc
         for f in s.frames:
             g = Frame(f.fn); g.lab = f.lab; g.idx = f.idx; g.prev = f.prev; g.loc = dict(f.loc); g.ret_to = f.ret_to; g.allocas = list(f.allocas); g.loopcnt = dict(f.loopcnt)
             n.frames.append(g)
@@ -55,6 +55,8 @@ class Exec:
         s.nondet_n = 0
         for i, n in enumerate(m.forder):
             s.faddr[n] = 0x7000000000 + 16 * i; s.fbyaddr[0x7000000000 + 16 * i] = n
+        for i, n in enumerate(('__verif_exc_what', '__verif_exc_dtor')):
+            s.faddr[n] = 0x7f00000000 + 16 * i; s.fbyaddr[0x7f00000000 + 16 * i] = n
         s.blocks = {}
         for n, f in m.funcs.items():
             if f['blocks'] is not None:
@@ -595,6 +597,11 @@ class Exec:
                 st.objs[oid].cells[8] = (8, Ptr(noid, 0))
                 continue
             oid = s.new_obj(st, max(size, 1), n, kind='zero'); s.gobj[n] = oid
+            if g['init'] is None and n in ('_ZTVSt13basic_fstreamIcSt11char_traitsIcEE', '_ZTVSt14basic_ifstreamIcSt11char_traitsIcEE', '_ZTVSt14basic_ofstreamIcSt11char_traitsIcEE'):
+                # external vtable of a libstdc++ file stream: the virtual-base offsets sit 24 bytes before each address point
+                if 'fstream' in n and 'ifstream' not in n and 'ofstream' not in n: st.objs[oid].cells[0] = (8, 264); st.objs[oid].cells[40] = (8, 248)
+                elif 'ifstream' in n: st.objs[oid].cells[0] = (8, 256)
+                else: st.objs[oid].cells[0] = (8, 248)
             if g['init'] is None and n.startswith('_ZTT'):
                 # external VTT of a libstdc++ stream class: entries point at fake vtables that carry the virtual-base offset
                 vb = {'ostringstream': 112, 'istringstream': 120, 'stringstream': 128, 'ofstream': 248, 'ifstream': 256, 'fstream': 264}
@@ -770,7 +777,15 @@ class Exec:
             else:
                 L[d] = s.load_val(st, ptr, x['ty'])
         elif op == 'store':
-            s.store_val(st, s.val(st, x['a']), x['v'].ty, s.val(st, x['v']))
+            ptr = s.val(st, x['a']); v = s.val(st, x['v'])
+            if isinstance(ptr, Ptr) and not isc(ptr.off) and (isinstance(v, Ptr) or s.res(x['v'].ty).k == 'ptr'):
+                # pointer stored through a symbolic offset (hash bucket chosen by a symbolic key): one path per feasible offset
+                vals = s.feasible_values(st, ptr.off, 64)
+                for k in vals[:-1]:
+                    o = st.fork(); o.pc.append(ptr.off == z3.BitVecVal(k, 64)); s.store_val(o, Ptr(ptr.obj, k), x['v'].ty, v); work.append(o); s.stats['forks'] += 1
+                s.assume(st, ptr.off == z3.BitVecVal(vals[-1], 64)); s.store_val(st, Ptr(ptr.obj, vals[-1]), x['v'].ty, v)
+            else:
+                s.store_val(st, ptr, x['v'].ty, v)
         elif op == 'getelementptr':
             L[d] = s.gep(st, x['srcty'], s.val(st, x['base']), [s.val(st, i) for i in x['idx']])
         elif op in ('bitcast', 'addrspacecast'):
@@ -1026,7 +1041,7 @@ class Exec:
             if nxt is not None: s.jump(st, fr, nxt)
             return
         import cxxrt
-        if f is not None and f['blocks'] is not None and name not in cxxrt.FORCED:
+        if f is not None and f['blocks'] is not None and not cxxrt.is_forced(name):
             s.call_fn(st, name, args, (d if x['ty'].k != 'void' else None, nxt, x.get('unwind'))); return
         try:
             r = s.builtin(st, fr, name, args, x, work)
@@ -1172,6 +1187,17 @@ class Exec:
             c = s.icmp(st, 'slt', x['ty'], a[0], 0)
             neg = s.binop(st, 'sub', x['ty'], 0, a[0])
             return s.ite(c, neg, a[0], x['ty']) if not isinstance(c, bool) else (neg if c else a[0])
+        mm = re.match(r'llvm\.(usub|uadd|ssub|sadd)\.sat\.i(\d+)', name)
+        if mm:
+            w = int(mm.group(2)); A = s.bv(a[0], w); B = s.bv(a[1], w); M = (1 << w) - 1; kind = mm.group(1)
+            if kind == 'usub': r = z3.If(z3.UGE(A, B), A - B, z3.BitVecVal(0, w))
+            elif kind == 'uadd': r = z3.If(z3.ULT(A + B, A), z3.BitVecVal(M, w), A + B)
+            else:
+                wide = (z3.SignExt(1, A) + z3.SignExt(1, B)) if kind == 'sadd' else (z3.SignExt(1, A) - z3.SignExt(1, B))
+                mx = z3.BitVecVal((1 << (w - 1)) - 1, w + 1); mn = z3.BitVecVal(-(1 << (w - 1)), w + 1)
+                r = z3.Extract(w - 1, 0, z3.If(wide > mx, mx, z3.If(wide < mn, mn, wide)))
+            r = z3.simplify(r)
+            return r.as_long() if z3.is_bv_value(r) else r
         mm = re.match(r'llvm\.(ctlz|cttz|ctpop)\.i(\d+)', name)
         if mm:
             w = int(mm.group(2)); v = a[0]
@@ -1331,7 +1357,20 @@ class Exec:
         if name in ('__cxa_end_catch', '__cxa_free_exception'): return 0
         if name == 'llvm.eh.typeid.for':
             p = a[0]; return p.obj
-        if re.match(r'_ZNSt\d+(runtime_error|invalid_argument|logic_error|out_of_range|length_error)(C|D)[12]E', name): return 0
+        if re.match(r'_ZNSt\d+(runtime_error|invalid_argument|logic_error|out_of_range|length_error|domain_error|range_error|overflow_error|underflow_error)C[12]E', name):
+            # std exception constructed by library code we do not execute: give it a vtable whose what() returns an empty message
+            vt = getattr(st, 'exc_vt', None)
+            if vt is None or vt not in st.objs:
+                vt = s.new_obj(st, 64, 'fake-vtable(std::exception)', kind='zero'); st.exc_vt = vt
+                st.objs[vt].cells[0] = (8, Ptr(-1, s.faddr['__verif_exc_dtor'])); st.objs[vt].cells[8] = (8, Ptr(-1, s.faddr['__verif_exc_dtor'])); st.objs[vt].cells[16] = (8, Ptr(-1, s.faddr['__verif_exc_what']))
+            s.store_val(st, a[0], PTR(I8), Ptr(vt, 0)); return 0
+        if re.match(r'_ZNSt\d+(runtime_error|invalid_argument|logic_error|out_of_range|length_error|domain_error|range_error|overflow_error|underflow_error)D[012]E', name): return 0
+        if name == '__verif_exc_dtor': return 0
+        if name == '__verif_exc_what':
+            eo = getattr(st, 'exc_msg', None)
+            if eo is None or eo not in st.objs:
+                eo = s.new_obj(st, 1, 'empty what() message', kind='zero'); st.exc_msg = eo
+            return Ptr(eo, 0)
         if name.startswith('_ZN3Opm6OpmLog'): return 0
         import cxxrt
         r = cxxrt.builtin(s, st, fr, name, a, x, work)
